@@ -245,3 +245,73 @@ CHECKS["C13"] = dict(
     require_counts=dict(any=dict(schedules=100000, transitions=500000, geometries_all_orders=100, idle_threads=1000)),
     deadline=dict(quick=540, thorough=3300),
 )
+
+# ---- E2 pipeline explorer (C10, C11, C02): one translation unit per (root kind, first operation) -----------------------------------
+E2_TECH = ("bounded exhaustive exploration of the PROGRAM tree (all view pipelines up to the depth bound over the operation alphabet and its argument menus, from every root "
+           "kind and root shape), generated by template recursion; every node executes the real lazy view, its evaluations and the step-wise eager chain next to the reference model")
+def pipe_units(prop, san=False):
+    us = []
+    for tier, depth in (("quick", 2), ("thorough", 3)):
+        for k in range(5):
+            for f in range(12):
+                us.append(U("pipe_%s_k%d_f%d" % (tier[0], k, f), "harness/c_pipeline.cpp", opt="-O0", family="pipe", shards=1, tiers=[tier],
+                            flags=["-DPIPE_PROP=%d" % prop, "-DPIPE_KIND=%d" % k, "-DPIPE_FIRST=%d" % f, "-DPIPE_MAXDEPTH=%d" % depth]))
+                if san and tier == "quick" and k in (3, 4):
+                    us.append(U("pipe_san_k%d_f%d" % (k, f), "harness/c_pipeline.cpp", opt="-O1", san=True, family="pipe", shadow=True, shards=1, tiers=["quick", "thorough"], run_tier="quick",
+                                flags=["-DPIPE_PROP=%d" % prop, "-DPIPE_KIND=%d" % k, "-DPIPE_FIRST=%d" % f, "-DPIPE_MAXDEPTH=2"]))
+    return us
+PIPE_BOUNDS = dict(quick="5 root kinds (constant shape (2,3) + fixed buffer; clipped <=(3,4); fixed dim 2; bounded dim <=3; dynamic) x their root shapes x all pipelines of depth <= 2 over 12 operations "
+                         "(reshape, transpose, flip, expand_dims, slice, tile, add-with-broadcast, sum(axis) with run-time arguments; flip, expand_dims, sum, sum-keepdims with compile-time arguments) and their argument menus",
+                   thorough="same alphabet, depth <= 3, all root shapes under the bounds")
+PIPE_ASSUME = ["argument menus contain valid arguments only (invalid ones are C15's business)", "arrays are kept below 96 elements and dim 5",
+               "a stage that would yield a scalar is not a pipeline stage", "reference model nmc_ref.hpp (audited against NumPy)"]
+CHECKS["C10"] = dict(
+    level="model_checking", engine="E2", technique=E2_TECH, level_note=E1_NOTE,
+    level_text="At every node of the program tree the lazy nested view, eval(view) with the row-major and the column-major resolver, eval into a caller-supplied output of the right shape and the step-wise "
+               "eager chain (array::op applied to the previous concrete array) are read at every index and compared with the reference model; no evaluator may return early on a shape mismatch (hook).",
+    units=pipe_units(10), rule="case = program path (root kind, root shape, (op,arg)*); every prefix is a case; non-trivial = result has > 1 element; states = distinct nodes, transitions = node executions; distinct = distinct key",
+    bounds=PIPE_BOUNDS, assumptions=PIPE_ASSUME, min_outcomes=500, require_counts=dict(any=dict(transitions=5000)),
+)
+CHECKS["C11"] = dict(
+    level="model_checking", engine="E2", technique=E2_TECH, level_note=E1_NOTE,
+    level_text="For every view type the explorer instantiates, the statically reported fixed_shape / fixed_dim / fixed_size / bounded_dim / bounded_size of the view type and of its evaluation result type "
+               "are compared with every run-time object of that type the menus produce (all shapes under a clipped bound, every dim under a bounded dim); the evaluated result must have the full shape and "
+               "values (nothing clipped) and no bounded container may be asked to hold more than its capacity (hook).",
+    units=pipe_units(11), rule="case = program path; non-trivial = the node's view type or result type carries static knowledge and the result has > 1 element; distinct = distinct key",
+    bounds=PIPE_BOUNDS, assumptions=PIPE_ASSUME, min_outcomes=500, require_counts=dict(any=dict(transitions=5000, nodes_with_static_knowledge=2000)),
+)
+CHECKS["C02"] = dict(
+    level="model_checking", engine="E2", technique=E2_TECH + "; index-vs-extent and capacity events are observed through the NMTOOLS_VERIF hooks, plus an ASan/UBSan shadow build",
+    level_note=E1_NOTE,
+    level_text="At every node of the program tree every element of the view is read and the view is evaluated while every BOUNDS hook event (packed index vs axis extent, buffer offset vs buffer length, "
+               "utl container index vs size) must satisfy 0 <= index < extent and no CAPACITY event (bounded container asked to hold more than its capacity) may fire; the values read must be the designated ones.",
+    units=pipe_units(2, san=True), rule="case = program path; non-trivial = result has > 1 element; distinct = distinct key; bounds_events_checked counts the hook events inspected",
+    bounds=PIPE_BOUNDS, assumptions=PIPE_ASSUME + ["SIMD evaluation is covered by C12 (guard pages, ASan)"], min_outcomes=500, require_counts=dict(any=dict(transitions=5000, bounds_events_checked=1000000)),
+)
+
+# ---- C09 (part 1): cross-build differential of the dynamic harnesses; (part 2, the container-kind matrix) is in harness/c09_kinds*.cpp
+def c09_builds(name, src, flags=None, weight=1):
+    us = []
+    for tag, cxx, extra in (("gcc_stl", "g++", []), ("gcc_nostl", "g++", ["-DNMTOOLS_DISABLE_STL"]), ("clang_stl", "clang++", []), ("clang_nostl", "clang++", ["-DNMTOOLS_DISABLE_STL"])):
+        us.append(U("%s_%s" % (name, tag), src, cxx=cxx, flags=(flags or []) + extra, dump=True, family=name, shadow=(tag != "gcc_stl"), weight=weight,
+                    run_tier="quick", tiers=(["quick", "thorough"] if tag in ("gcc_stl", "clang_nostl") else ["thorough"])))
+    return us
+C09_SRC = [("rearrange", "harness/c03_rearrange.cpp", None, 1), ("select", "harness/c04a_select.cpp", None, 2), ("broadcast", "harness/c06_broadcast.cpp", None, 2),
+           ("index", "harness/c01_index.cpp", None, 1), ("reduce", "harness/c08_reduce.cpp", None, 3), ("slice", "harness/c05_slice.cpp", None, 1)]
+CHECKS["C09"] = dict(
+    level="exploration", engine="E5",
+    technique="bounded exhaustive differential: the complete quick-tier input spaces of the C01/C03/C04/C05/C06/C08 harnesses (written against nmtools_list / nmtools_array / nmtools_tuple / nmtools_maybe) are "
+              "executed under four builds {g++ 12, clang++ 14} x {STL, NMTOOLS_DISABLE_STL (the library's own utl containers)} and the per-case observations (success/failure, shape, every element) are compared "
+              "case by case; the container-kind matrix enumerates, per operation, every supported combination of argument kinds within a deviation bound and compares with the all-dynamic result",
+    level_note="trusted: the observation layer (shape/len/at/apply_at) and its hash; the all-dynamic g++/STL run as the reference (itself tied to the NumPy-definition model by C01-C08). Bounded: the quick-tier "
+               "alphabets of those harnesses and the kind combinations listed in the evidence.",
+    level_text="Every case of the quick-tier spaces of six harnesses is executed in 2 (quick) / 4 (thorough) builds and must give the identical observation in each; cases that already fail in the reference "
+               "build belong to their own property's findings and are excluded from the comparison.",
+    units=[u for (n, s_, f, w) in C09_SRC for u in c09_builds(n, s_, f, w)],
+    differential=[["%s_gcc_stl" % n, "%s_gcc_nostl" % n, "%s_clang_stl" % n, "%s_clang_nostl" % n] for (n, s_, f, w) in C09_SRC],
+    rule="case = a case of the underlying harness; non-trivial as defined there; an execution = one case in one build; distinct = distinct key; differential_cases_compared counts (case, build) pairs compared with the reference build",
+    bounds=dict(quick="6 harnesses x quick alphabets x {g++/STL, clang++/no-STL}", thorough="6 harnesses x quick alphabets x 4 builds"),
+    assumptions=["cases failing in the reference build are not compared (they are findings of C01-C08)"],
+    only_differential=True,
+    min_outcomes=1000, require_counts=dict(any=dict(differential_cases_compared=100000)),
+)
